@@ -34,6 +34,7 @@ fn main() {
         "multi" => extra::cmd_multi(&args),
         "lockstep" => extra::cmd_lockstep(&args),
         "lowlevel" => extra::cmd_lowlevel(&args),
+        "zst" => extra::cmd_zst(&args),
         "info" => {
             println!("{}", J::obj().set("hooks", J::B(sched::HOOKS_AVAILABLE)).set("debug_assertions", J::B(cfg!(debug_assertions))).render());
             0
